@@ -31,7 +31,9 @@ DATES = dict(DATE_SETS[0])
 PLACES = {"munich": (48.1372, 11.5755, 0.519), "lat0": (0.0, 11.5, 0.0), "lon0": (48.0, 0.0, 0.5), "northpole": (90.0, 0.0, 0.0),
           "southpole": (-90.0, 45.0, 1.0), "lon180": (-30.0, 180.0, 10.0),
           # the same latitude and longitude as "munich", 400 km higher (consecutive queries that differ in height only)
-          "munich400": (48.1372, 11.5755, 400.519)}
+          "munich400": (48.1372, 11.5755, 400.519),
+          # below the ellipsoid (the model is valid from -1 km): both entry points must take it
+          "below": (-33.9, 18.42, -0.43)}
 KEYS = ["X", "Y", "Z", "H", "F", "I", "D", "GV"]
 
 
